@@ -52,9 +52,9 @@ def main(argv):
             jobs.append(['decomp'] + sample_binaries() + spec_corpus)
             jobs.append(['defects'])
             if tier == 'quick':
-                jobs += [['lits', 8], ['floats', 6000, 60], ['exprs', 3000, 2, 400], ['stmts', 2000, 2, 260], ['soup', 800], ['mutate', 800]]
+                jobs += [['lits', 8], ['floats', 6000, 60], ['exprs', 3000, 2, 400], ['stmts', 2000, 2, 260], ['soup', 800], ['mutate', 700], ['chains', 500]]
             else:
-                jobs += [['lits', 60], ['floats', 4200000, 2500], ['soup', 8000], ['mutate', 8000]]
+                jobs += [['lits', 60], ['floats', 4200000, 2500], ['soup', 8000], ['mutate', 6000], ['chains', 4000]]
                 jobs += [['exprs', 5000, 3, 700 if k == 0 else 0, 'allwidths'] for k in range(4)]
                 jobs += [['stmts', 2500, 3, 550 if k == 0 else 0, 'allwidths'] for k in range(4)]
                 jobs += [['exprs', 30000, 2, 3000], ['stmts', 20000, 2, 1500]]
@@ -122,7 +122,7 @@ def main(argv):
     })
     return v.finish(
         level='proof',
-        checker_cmd='cd coq && make theories/Corr/C08.vo theories/Props/C08.vo ; coqc work/audit_C08.v (Print Assumptions) ; harness/target/debug/c08 lits|floats|exprs|stmts|soup|mutate|decomp|defects|text ; coqc work/cases_C08/*.v',
+        checker_cmd='cd coq && make theories/Corr/C08.vo theories/Props/C08.vo ; coqc work/audit_C08.v (Print Assumptions) ; harness/target/debug/c08 lits|floats|exprs|stmts|soup|mutate|chains|decomp|defects|text ; coqc work/cases_C08/*.v',
         trusted_base=['modelled, not verified: Model/Fmt.v (fmt.rs), Model/FmtLex.v (lexer.rs token classes as a maximal-munch specification), Model/FmtParse.v (the Expr grammar of lalrparser.lalrpop as precedence climbing; parse_u32_literal; parse_string_literal); the logos automaton and the LALRPOP tables are tied by correspondence only',
                       "Rust's f32 Display (shortest round-trip, no exponent) and str::parse::<f32> are a Section hypothesis of float_bits_roundtrip; the harness sweeps the hypothesis over structured bit patterns (thorough: 2^22)",
                       'statement/item/meta parsing is not modelled: their round trip is checked by the implementation-level oracle; the model covers their printing at every width and the lexing of the printed text'],
